@@ -2,6 +2,7 @@ import Ampy.Lemmas.Total
 import Ampy.Lemmas.Screen
 import Ampy.Lemmas.Run
 import Ampy.Lemmas.Domain
+import Ampy.Lemmas.EndToEnd
 /-!
 # C08 — valid input never crashes the chain; failures are AmpycloudError only  (partial)
 
@@ -67,5 +68,29 @@ theorem C08_kernel_domains {α} [DecidableEq α] (K K' : Kern) (P : PPrms α) (c
     (hA : KernAgree K K') (hK : KernOK K P.basePerc) (hp : PtsOrderOK K) (hP : PrmsOK P) :
     run K P checked = run K' P checked :=
   run_agree K K' P checked hA hK hp hP
+
+/-- The whole API call `ampycloud.run(data, prms)` (consistency check, construction, three stages), for *any* argument:
+either the consistency check refuses it with an `AmpycloudError` (C15 says exactly when), or a chunk is returned. No
+other outcome exists in the model. -/
+theorem C08_api_total {α} [DecidableEq α] (K : Kern) (P : PPrms α) (hK : KernOK K P.basePerc) (hP : PrmsOK P)
+    (hA3 : SelectedPopulated K P) (arg : PyArg α) :
+    (∃ why, runFrom K P arg = .error (.ampy why)) ∨ ∃ c, runFrom K P arg = .ok c := by
+  unfold runFrom
+  cases hs : screen arg with
+  | error e =>
+    obtain ⟨why, rfl⟩ := screen_error_ampy arg e hs
+    exact Or.inl ⟨why, rfl⟩
+  | ok r =>
+    obtain ⟨c, _⟩ := r
+    exact Or.inr (run_total K P hK hP hA3 c.rows)
+
+/-- `ampycloud.metar(data)`: whenever the input is accepted, the call returns a string, and (heights in the physical
+range) that string is `NCD`, `NSC` or one to three well-formed groups. -/
+theorem C08_metar_total {α} [DecidableEq α] (K : Kern) (P : PPrms α) (checked : List (Hit α))
+    (hA : Accepted K P checked) (hA3 : SelectedPopulated K P) :
+    ∃ c msg, run K P checked = .ok c ∧ metarMsgOp P c .layers = .ok msg := by
+  obtain ⟨c, hc⟩ := run_total K P hA.kern hA.prms hA3 checked
+  obtain ⟨t, _, _, hm⟩ := run_msg K P checked hA c hc .layers
+  exact ⟨c, _, hc, hm⟩
 
 end Ampy
